@@ -17,10 +17,13 @@ Section Sweep.
 End Sweep.
 Definition slice {A} (a b : nat) (l : list A) := firstn (b - a) (skipn a l).
 
-(** numpy.allclose(a, b, rtol=1e-5, atol=1e-8) on one pair, with the binary64 values of the constants *)
+(** the binary64 values of numpy's default tolerances rtol=1e-5, atol=1e-8 (still used by is_regular) *)
 Definition rtol : Qc := mkq 5902958103587057 590295810358705651712.
 Definition atol : Qc := mkq 3022314549036573 302231454903657293676544.
-Definition allclose1 (a b : Qc) : bool := Qcleb (Qcabs (a - b)) (atol + rtol * Qcabs b).
+(** how physt compares two edges: numpy.allclose(a, b, rtol=0, atol=0) in is_consecutive and numpy.array_equal in
+    has_same_bins, i.e. equality (since the fixes d20d771 / d543b2b in /repo; before, the default tolerances were used,
+    which are relative to the edge VALUE and overlooked unit gaps at an offset of 1e6) *)
+Definition allclose1 (a b : Qc) : bool := Qcleb (Qcabs (a - b)) (0 + 0 * Qcabs b).
 Fixpoint consecutive_tol (l : list bin) : bool :=
   match l with
   | b :: ((c :: _) as r) => allclose1 (fst c) (snd b) && consecutive_tol r
